@@ -89,6 +89,9 @@ pub fn vx_opt_to_owned(o: Option<&Statement>) -> (r: Option<Statement>)
 pub struct WeakRef { pub id: Ghost<int> }
 impl WeakRef {
     pub fn ptr_eq(&self, other: &WeakRef) -> (r: bool) ensures r == (self.id@ == other.id@) { vx_ghost_eq(self.id, other.id) }
+    // Weak::strong_count: whether the cache is still alive is a fact about the heap, which a `Weak` alone does not determine: any answer
+    #[verifier::external_body]
+    pub fn strong_count(&self) -> (r: usize) { unimplemented!() }
 }
 #[verifier::external_body]
 pub fn vx_ghost_eq(a: Ghost<int>, b: Ghost<int>) -> (r: bool) ensures r == (a@ == b@) { unimplemented!() }
